@@ -953,9 +953,11 @@ impl TypeChecker {
 
                 let ctx = ctx.with_type(Type::bool());
 
-                let mut diverges = false;
-                diverges |= self.expr(scope, &ctx, left)?;
-                diverges |= self.expr(scope, &ctx, right)?;
+                // These operators short-circuit: the right operand might
+                // never be evaluated, so only the left one can make the
+                // whole expression diverge.
+                let diverges = self.expr(scope, &ctx, left)?;
+                self.expr(scope, &ctx, right)?;
                 Ok(diverges)
             }
             Lt | Le | Gt | Ge => {
